@@ -226,6 +226,18 @@ class Visit:
     def resolve(self, t, assuming=()):
         return z3.simplify(self.resolver(assuming)(t))
 
+    def unguarded(self, hyps, assuming=()):
+        """hypotheses with `Implies(g, h)` replaced by `h` when the integer facts of the path (plus `assuming`) entail g
+        (facts recorded inside a merged `if` branch carry the branch condition as a guard)"""
+        res = self.resolver(assuming)
+        out = []
+        for h in hyps:
+            if z3.is_app(h) and h.decl().kind() == z3.Z3_OP_IMPLIES and _int_only(h.arg(0)) and res.entails(h.arg(0)):
+                out.append(h.arg(1))
+            else:
+                out.append(h)
+        return out
+
     def delta(self, key, idx, assuming=()):
         """accumulator'[idx] - accumulator[idx] with the select/store chains resolved (each rewrite solver-checked
         against the integer hypotheses of the path plus `assuming`)"""
@@ -476,6 +488,14 @@ class Accum:
                 vis = Visit(self, nest, levels, s2, header + rec, pre, post, npath, fl.kind)
                 npath += 1
                 self._frame_check(eng, st, s2.log, node, self.relname(vis, "frame.writes"))
+                # vacuity guard: the hypotheses of this body path (header, pack assumptions, model axioms) must be
+                # satisfiable, otherwise every body obligation would hold trivially
+                chk = z3.Solver()
+                chk.set("timeout", 3000)
+                for h in s2.hyps():
+                    chk.add(h)
+                self.v.ground(self.relname(vis, "cover.body_hypotheses_satisfiable"), chk.check() != z3.unsat,
+                              "hypotheses of the body path are contradictory (vacuous body contract)")
                 if saved_log is not None:
                     saved_log |= s2.log
                 nest.visit(vis)
